@@ -53,4 +53,15 @@ def expectedDummyWriter : List (String × String) := [
   ("indent", ""), ("increaseIndent", ""), ("decreaseIndent", ""), ("setStartNewLine", ""),
   ("outputLineSep", ""), ("setPrevText", ""), ("setPreserve", ""), ("pop_preserve", ""), ("push_preserve", "")]
 
+/-- the functions that test `m_nextIsRaw` (the models transcribe the first two, the fourth through sixth are the
+FormatterToXML base of FormatterToHTML and FormatterToHTML itself; FormatterToText has no such flag) -/
+def expectedRawFlagConsumers : List (String × String) := [
+  ("XalanXMLSerializerBase", "characters"), ("XalanXMLSerializerBase", "cdata"),
+  ("FormatterToXML", "characters"), ("FormatterToXML", "ignorableWhitespace"), ("FormatterToXML", "cdata"),
+  ("FormatterToHTML", "characters")]
+
+def expectedRawFlagSetters : List (String × String) := [
+  ("XalanXMLSerializerBase", "processingInstruction"), ("FormatterToXML", "processingInstruction"),
+  ("FormatterToHTML", "processingInstruction")]
+
 end XalanModel.C08
